@@ -41,6 +41,11 @@ def _eq(p, label, got, want, note="", meta=None):
 
 
 def run(vc):
+    run_lines(vc)
+    run_two_port(vc)
+
+
+def run_lines(vc):
     # ---- lines -----------------------------------------------------------------------------------
     for mode in ("pf", "opf"):
         for with_loading in (True, False):
@@ -78,6 +83,9 @@ def run(vc):
                         note="only rows of the line block of ppc['branch'] are written")
             vc.explore(f"_calc_line_parameter[{mode},{with_loading}]", h, max_paths=20)
 
+
+
+def run_two_port(vc):
     # ---- two-port of branch_vectors -----------------------------------------------------------------
     def h_bv(p):
         ib = consts("pandapower.pypower.idx_brch")
